@@ -23,3 +23,18 @@ func reducerBroadcasted(y tensor.Tensor, x tensor.Tensor, dim int) (o tensor.Ten
 
 	return o, nil
 }
+
+// index of the block that a patch of the given shape occupies in its target:
+// along dimensions not explicitly indexed, the patch starts at 0 and spans its own size
+func patchedBlockIndex(index []tensor.Range, shape []int) (bidx []tensor.Range) {
+	bidx = make([]tensor.Range, len(shape))
+	for i := range bidx {
+		if i >= len(index) || (index[i].From == 0 && index[i].To == 0) {
+			bidx[i] = tensor.Range{From: 0, To: shape[i]}
+		} else {
+			bidx[i] = index[i]
+		}
+	}
+
+	return bidx
+}
